@@ -72,6 +72,11 @@ func (ref Reference) CompletionAtPos(ctx context.Context, pos hcl.Pos) []lang.Ca
 			// such as dot, opening bracket etc.
 			editRng.End = pos
 		}
+		if editRng.Start.Byte > pos.Byte {
+			// the position is before the expression
+			// (e.g. right after the equals sign)
+			editRng.Start = pos
+		}
 		prefixRng = hcl.Range{
 			Filename: eType.Range().Filename,
 			Start:    eType.Range().Start,
@@ -83,6 +88,11 @@ func (ref Reference) CompletionAtPos(ctx context.Context, pos hcl.Pos) []lang.Ca
 			// account for trailing character(s) which doesn't appear in AST
 			// such as dot, opening bracket etc.
 			editRng.End = pos
+		}
+		if editRng.Start.Byte > pos.Byte {
+			// the position is before the expression
+			// (e.g. right after the equals sign)
+			editRng.Start = pos
 		}
 		prefixRng = hcl.Range{
 			Filename: eType.Range().Filename,
